@@ -62,7 +62,12 @@ type Neg struct{ X Expr }
 type Num struct{ Lit string }
 
 // Str is a string literal.
-type Str struct{ S string }
+// Str is a string literal. DQ asks for double quotes; a literal that contains one
+// kind of quote is always delimited by the other.
+type Str struct {
+	S  string
+	DQ bool
+}
 
 // Call is a function call.
 type Call struct {
@@ -288,7 +293,7 @@ func (b *tokbuf) expr(e Expr) {
 		b.toks = append(b.toks, Token{Text: x.Lit, Kind: TNumber})
 	case *Str:
 		q := "'"
-		if strings.Contains(x.S, "'") {
+		if strings.Contains(x.S, "'") || (x.DQ && !strings.Contains(x.S, "\"")) {
 			q = "\""
 		}
 		b.toks = append(b.toks, Token{Text: q + x.S + q, Kind: TString})
@@ -525,6 +530,9 @@ func toJ(e Expr) interface{} {
 	case *Num:
 		return jnode{"t": "num", "lit": x.Lit}
 	case *Str:
+		if x.DQ {
+			return jnode{"t": "str", "s": x.S, "dq": true}
+		}
 		return jnode{"t": "str", "s": x.S}
 	case *Call:
 		return jnode{"t": "call", "name": x.Name, "args": listJ(x.Args)}
@@ -629,7 +637,8 @@ func fromJ(v interface{}) Expr {
 	case "num":
 		return &Num{Lit: str(m, "lit")}
 	case "str":
-		return &Str{S: str(m, "s")}
+		dq, _ := m["dq"].(bool)
+		return &Str{S: str(m, "s"), DQ: dq}
 	case "call":
 		return &Call{Name: str(m, "name"), Args: fromList(m["args"])}
 	case "var":
